@@ -39,10 +39,26 @@ def run(ctx):
         for k, v in h2.items():
             hist["api:" + k] = hist.get("api:" + k, 0) + v
     ctx.coverage["traces_validated_against_impl"] = api_h
+    # a setter that returned Ok has set the value, also when it is the retry of an attempt that failed on a
+    # transient write/seek fault of the underlying file: every fault position of every setter, both versions
+    rc, out = C.harness(["faults", "--meta"], timeout=1200)
+    if rc != 0:
+        ctx.undischarged.append("harness faults --meta crashed: " + out[-300:])
+    else:
+        st, _, oracle = C.parse_stats(out)
+        total += st.get("evaluations", 0)
+        hist["setter-retry-after-write-fault"] = st.get("evaluations", 0)
+        seen = set()
+        for msg in oracle:
+            sg = "retry:" + ("reopen" if "after reopening" in msg else "panic" if "panic" in msg else "live") + ":" + msg.split(" ")[0]
+            if sg in seen:
+                continue
+            seen.add(sg)
+            C.add_violation(ctx, sg, msg[:300], "# C17: %s\n# replay: harness faults --meta (deterministic; the line names setter, path, version and the underlying call index of the fault)\n" % msg[:1000])
     ctx.coverage.update({
         "evaluations": total,
         "distinct_nontrivial": total,
-        "rule": "calls of Timestamp::from_system_time / to_system_time through hook H2 on instants drawn around 1601, 1970, the saturation points, i64 second extremes and sub-100ns fractions of both signs, and on 64-bit timestamp values around 0, the Unix epoch and u64::MAX; every call compared with the Lean model (level O) and with an i128 oracle; distinctness not measured (inputs are 64+30 bit random with anchors; collisions negligible)",
+        "rule": "calls of Timestamp::from_system_time / to_system_time through hook H2 on instants drawn around 1601, 1970, the saturation points, i64 second extremes and sub-100ns fractions of both signs, and on 64-bit timestamp values around 0, the Unix epoch and u64::MAX; every call compared with the Lean model (level O) and with an i128 oracle; every setter on storages, streams and the root with a transient write/seek fault at each underlying call position, retried until Ok, then judged through entry() and through the reopened bytes; distinctness not measured (inputs are 64+30 bit random with anchors; collisions negligible)",
         "samples": samples,
         "histogram": hist,
     })
